@@ -4,10 +4,13 @@ import itertools
 import re
 
 from harness import core, fr
-from harness.core import gz, gnat, gbool, gstr, glist
+from harness.core import gz, gnat, gbool, glist
+from harness.props import pbdag
+from harness.props.pbdag import gstr          # core.gstr, plus non-ASCII names as UTF-8 bytes
 
 HEADER = """From Coq Require Import ZArith List Bool String.
-From FrameModel Require Import PB.Expr PB.Cnf PB.Amo PB.Robdd PB.Codify PB.Sat Cases.CmpC07.
+From FrameModel Require Import PB.Expr PB.Cnf PB.Amo PB.Robdd PB.Codify PB.Sat PB.SatBool PB.Dag PB.DagPost
+  Cases.CmpC07Set Cases.CmpC07 Cases.CmpC07Dag.
 Import ListNotations."""
 
 ASSUMPTIONS = [
@@ -22,6 +25,13 @@ ASSUMPTIONS = [
     "PySAT (default solver of pysat.solvers.Solver) is trusted as sound and complete; the model's solver is a Section "
     "variable with that contract",
     "names containing ',' ';' or ' ' (which would alias keys of the per-call memo) are not generated",
+    "histories over shared objects (kind dag / dagbig, model PB/DagPost.v): the posted literals and inequalities are "
+    "objects bound to names (sm.newvar results, Literal / Term / Expr / Ineq built with the real operators), reused "
+    "and derived from each other between the posts; here the model computes every inequality itself from the "
+    "history (nothing is read back from the Ineq object) and the value of every object is compared at the end; the "
+    "direct oracle evaluates every posted constraint from how the user wrote it",
+    "dagbig (33..64 user variables): extendability is checked on the assignments that maximise / minimise each posted "
+    "inequality, their one- and two-flip neighbours and random assignments (not all 2^n)",
 ]
 
 OPSTR = {"GE": ">=", "LE": "<=", "GT": ">", "LT": "<", "EQ": "=", "EQ2": "=="}
@@ -75,10 +85,94 @@ def gen_post(rng, names):
     return gen_ineq(rng, names)
 
 
+def gen_cofactor_pair(rng, names):
+    """An inequality and, later, one of its cofactors by its heaviest literal (the diagram of the second is an inner
+    node of the diagram of the first; the second is not implied by the first)."""
+    n = min(len(names), rng.choice([3, 4, 4, 5, 6]))
+    vs = rng.sample(names, n)
+    cs = sorted([rng.choice([1, 1, 2, 2, 3, 4, 5]) for _ in vs], reverse=True)
+    lt = [[v, rng.random() < 0.7, c] for v, c in zip(vs, cs)]
+    rest = sum(cs[1:])
+    b = rng.randint(2, max(2, rest))
+    dec = rng.random() < 0.3
+    first = {"k": "ineq", "lt": lt, "rt": [], "b": b, "op": "GE", "decomp": dec, "via": rng.choice(["ctor", "operator"])}
+    b2 = b if rng.random() < 0.6 else b - cs[0]
+    second = {"k": "ineq", "lt": lt[1:], "rt": [], "b": b2, "op": "GE", "decomp": dec, "via": "ctor"}
+    return first, second
+
+
+WIDE = [15, 16, 17, 31, 32, 33, 40, 64, 65]
+
+
+def gen_wide_case(rng):
+    """Few posts over MANY variables (sizes around 16 / 32 / 64): long clauses, long at-most-one groups (pairwise and
+    chained), long inequalities with small coefficients and a bound near an extreme (narrow diagrams).  Extendability
+    is checked on the assignments near the boundary of each constraint (see wide_assignments)."""
+    nv = rng.choice(WIDE)
+    names = [f"w{i}" for i in range(nv)]
+    posts = []
+    for _ in range(rng.choice([1, 1, 2, 3])):
+        kind = rng.choice(["clause", "amoq", "amoh", "amoh", "ineq", "ineq", "ineq"])
+        n = rng.choice([nv, nv, nv - 1, max(2, nv // 2), min(nv, 33), min(nv, 17)])
+        vs = rng.sample(names, n)
+        lits = [[v, rng.random() < 0.7] for v in vs]
+        if kind == "clause":
+            posts.append({"k": "clause", "lits": lits})
+        elif kind == "amoq":
+            posts.append({"k": "amoq", "lits": lits[:rng.choice([n, min(n, 20)])]})
+        elif kind == "amoh":
+            posts.append({"k": "amoh", "kk": rng.choice([3, 3, 4, 5, 8, 16, 17, 32]), "lits": lits})
+        else:
+            lt = [[v, s, rng.choice([1, 1, 1, 2])] for v, s in lits]
+            tot = sum(c for _, _, c in lt)
+            up = rng.random() < 0.5
+            b = tot - rng.choice([0, 1, 2]) if up else rng.choice([0, 1, 2])
+            op = rng.choice(["GE", "GT"]) if up else rng.choice(["LE", "LT"])
+            posts.append({"k": "ineq", "lt": lt, "rt": [], "b": b, "op": op, "decomp": rng.random() < 0.3,
+                          "via": rng.choice(["ctor", "operator"])})
+    order = list(names)
+    rng.shuffle(order)
+    return {"kind": "wide", "history": [], "posts": [{"k": "newvar", "v": v} for v in order] + posts, "evals": []}
+
+
+def wide_assignments(case, users):
+    """All-false, all-true, every single variable flipped from either, and for every posted constraint the assignments
+    making 0 / 1 / 2 / all-but-1 / all of its literals true (plus neighbours), plus random ones."""
+    import random
+    r = random.Random(len(users) * 7919 + len(case["posts"]))
+    out = [dict.fromkeys(users, False), dict.fromkeys(users, True)]
+    for v in users:
+        out.append(dict(out[0], **{v: True}))
+        out.append(dict(out[1], **{v: False}))
+    for p in case["posts"]:
+        lits = p.get("lits") or [[v, s] for v, s, _ in p.get("lt", [])]
+        if not lits:
+            continue
+        base = {v: r.random() < 0.5 for v in users}
+        allfalse = dict(base, **{v: not s for v, s in lits})
+        alltrue = dict(base, **{v: s for v, s in lits})
+        for start, flip_to in ((allfalse, True), (alltrue, False)):
+            out.append(dict(start))
+            for _ in range(40):
+                a = dict(start)
+                for v, s in r.sample(lits, min(len(lits), r.choice([1, 1, 2, 2, 3]))):
+                    a[v] = s if flip_to else not s
+                out.append(a)
+    for _ in range(40):
+        pr = r.choice([0.05, 0.5, 0.95])
+        out.append({v: r.random() < pr for v in users})
+    return [tuple(a[v] for v in users) for a in out]
+
+
 def gen_case(rng):
     nv = rng.choice([2, 3, 3, 4, 4, 5, 5, 6, 6, 7, 8, 10])
     names = NAMES[:nv]
     posts = [gen_post(rng, names) for _ in range(rng.choice([1, 1, 1, 2, 2, 2, 3, 3, 4, 5, 6]))]
+    if nv >= 3 and rng.random() < 0.2:
+        first, second = gen_cofactor_pair(rng, names)
+        i = rng.randrange(len(posts) + 1)
+        posts.insert(i, first)
+        posts.insert(rng.randint(i + 1, len(posts)), second)
     hist = []
     for _ in range(rng.choice([0, 1, 2, 3, 4, 6])):
         if posts and rng.random() < 0.35:
@@ -168,10 +262,17 @@ def do_post(sm, p):
         else:
             raise ValueError(k)
     except Exception as e:
-        if type(e) is Exception and str(e) in ("Not implemented yet.", "k must be at least 3"):
+        if is_refusal(e):
             return "R", extra
         raise
     return "A", extra
+
+
+def is_refusal(e):
+    """A posting call that raises refuses the constraint (the property fixes neither the class nor the wording of the
+    error).  The exceptions Python itself raises for a programming error are not taken for a refusal."""
+    return isinstance(e, Exception) and not isinstance(e, (TypeError, LookupError, AttributeError, NameError,
+                                                            RecursionError, ArithmeticError))
 
 
 def mgr_state(sm):
@@ -194,6 +295,8 @@ def run_impl(case):
     from tools.rect import pseudobool as pb
     from tools.rect.pseudobool import Literal, Term, Expr
     from tools.rect.satmanager import SATManager
+    if is_dag(case):
+        return run_dag(case)
     # process-wide store back to its import-time content, then this case's own earlier history
     del pb.memory[2:]
     pb.memory[0:2] = [0, 1]
@@ -238,6 +341,8 @@ def run_impl(case):
     tt = sm.ttable
     if len(users) <= MAXENUM:
         assigns = list(itertools.product([False, True], repeat=len(users)))
+    elif case.get("kind") == "wide":
+        assigns = wide_assignments(case, users)
     else:
         import random
         r = random.Random(len(sm.clauses))
@@ -297,15 +402,480 @@ def gpost(p, norm):
     raise ValueError(k)
 
 
+def gsem(obs, names):
+    """The observed extendability of user assignments, for the semantic part of the comparison."""
+    ext = obs.get("extendable")
+    if ext is None or "users" not in obs:
+        return "SemNone"
+    users = glist([gstr(n) for n in names])
+    rows = [(sum(1 << j for j, b in enumerate(bits) if b), bool(e)) for bits, e in ext]
+    n = len(names)
+    if n <= MAXENUM and sorted(m for m, _ in rows) == list(range(1 << n)):
+        return f"(SemFull {users} {sum(1 << m for m, e in rows if e)}%N)"
+    return f"(SemTable {users} {glist([f'({m}%N, {gbool(e)})' for m, e in rows])})"
+
+
 def to_coq(case, obs):
+    if is_dag(case):
+        return dag_to_coq(case, obs)
     posts = glist([gpost(p, n) for p, n in zip(case["posts"], obs["norms"])])
     mem0 = glist([gnode(n) for n in obs["mem0"]])
     o = (f"(mkObs {glist([gnode(n) for n in obs['newmem']])} "
          f"{glist([glist([glit(l) for l in c]) for c in obs['clauses']])} {gnat(obs['aux'])} "
          f"{glist([gnat(i) for i in obs['codified']])} {glist([gvar(v) for v in obs['vtable']])} "
          f"{glist(['Accepted' if s == 'A' else 'Refused' for s in obs['status']])})")
-    return f"c07_check {mem0} {posts} {o}"
+    return f"c07_check {mem0} {posts} {o} {gsem(obs, [PRE + v for v in obs.get('users', [])])}"
 
+
+
+# --------------------------------------------------------------------------
+# histories over shared objects (PB/DagPost.v)
+# --------------------------------------------------------------------------
+def is_dag(case):
+    return case.get("kind") in ("dag", "dagbig")
+
+
+def gen_lrefs(rng, b, names, n):
+    out = []
+    lits = b.pool("lit")
+    for _ in range(n):
+        if lits and rng.random() < 0.7:
+            out.append(["ref", rng.choice(lits)])
+        else:
+            out.append(["new", rng.choice(names), rng.random() < 0.6])
+    return out
+
+
+def linear_range(steps, i, names):
+    """(min, max, argmax assignment) of the arithmetic object i, which is an affine function of the variables."""
+    zero = dict.fromkeys(names, False)
+    f0 = pbdag.direct(steps, zero)[i]
+    lo = hi = f0
+    best, worst = dict(zero), dict(zero)
+    for v in names:
+        d = pbdag.direct(steps, dict(zero, **{v: True}))[i] - f0
+        if d > 0:
+            hi += d
+            best[v] = True
+        elif d < 0:
+            lo += d
+            worst[v] = True
+    return lo, hi, best, worst
+
+
+def gen_dag_case(rng, big=False):
+    if big:
+        nv = rng.choice([33, 34, 36, 40, 48, 64])
+        names = [f"{PRE}v{i}" for i in range(nv)]
+    else:
+        pool = rng.choice([NAMES] * 3 + pbdag.NAME_POOLS[3:] + [["0", "1", "7", "10", "2.5", "x"]])
+        nv = min(len(pool), rng.choice([2, 3, 3, 4, 4, 5, 6, 7, 8]))
+        names = [PRE + v for v in pool[:nv]]
+    b = pbdag.Builder(rng, names)
+    order = list(names)
+    rng.shuffle(order)
+    for v in order:
+        b.push(["newvar", v])
+
+    def interesting_ineq():
+        """x_e OP k with k inside the range of x_e (neither trivially true nor false), built from a (hot) expression."""
+        e = b.pick("expr")
+        if e is None:
+            return None
+        x = b.pick("expr", "term", "int") if rng.random() < 0.35 else None
+        steps = b.binds
+        if x is not None and b.kinds[x] != "int":
+            d = b.push(["sub", e, x]) if rng.random() < 0.5 else None
+            tgt = d if d is not None else e
+        else:
+            tgt = e
+        lo, hi, _, _ = linear_range(steps, tgt, names)
+        if big:
+            k = rng.choice([hi, hi - 1, hi - 2, lo + 1, lo + 2, hi - 3])
+        elif hi - lo >= 2 and rng.random() < 0.7:
+            k = rng.randint(lo + 1, hi - 1)
+        else:
+            k = rng.randint(lo - 1, hi + 1)
+        op = rng.choice(["GE", "GE", "GE", "LE", "LE", "GT", "LT", "EQ"])
+        if big:
+            op = rng.choice(["GE", "GT"]) if k >= hi - 3 else rng.choice(["LE", "LT"])
+        ki = b.push(["int", k])
+        if tgt != e or x is None or b.kinds[x] == "int":
+            return b.push(["cmp", tgt, op, ki] if rng.random() < 0.7 else
+                          (["ineq", ki, op, tgt] if op in ("LE", "LT") else ["ineq", tgt, op, ki]))
+        # e OP x + k written with both sides non-trivial
+        r = b.push(["add", x, ki]) if b.kinds[x] in ("lit", "term", "expr") else ki
+        return b.push(["cmp", e, op, r])
+
+    def a_post():
+        kind = rng.choice(["clause", "imply", "amoq", "amoh"] + ["post"] * 6)
+        if kind == "post":
+            q = b.pick("ineq")
+            if q is None:
+                return
+            b.push(["post", q, rng.random() < 0.4])
+        elif kind == "clause":
+            b.push(["clause", gen_lrefs(rng, b, names, rng.choice([1, 2, 2, 3, 3, 4]))])
+        elif kind == "imply":
+            b.push(["imply", gen_lrefs(rng, b, names, rng.choice([0, 1, 2, 3])), gen_lrefs(rng, b, names, 1)[0]])
+        elif kind == "amoq":
+            b.push(["amoq", gen_lrefs(rng, b, names, rng.randint(0, 6))])
+        else:
+            b.push(["amoh", rng.choice([3, 3, 4, 5, rng.choice([1, 2, 7])]), gen_lrefs(rng, b, names, rng.randint(0, 9))])
+
+    if big:
+        # two long sums sharing their variables with both polarities (as pbdag.gen_big), unit-ish coefficients
+        def side():
+            ts = []
+            for v in names:
+                if rng.random() < 0.95:
+                    li = b.push(["lit", v, rng.random() < 0.5]) if rng.random() < 0.7 else \
+                        rng.choice([i for i, s in enumerate(b.binds) if s == ["newvar", v]])
+                    if li is not None and b.kinds[li] == "lit" and b.binds[li][0] == "newvar" and rng.random() < 0.5:
+                        li = b.push(["not", li])
+                    ts.append(b.push(["times", li, rng.choice([1, 1, 1, 2])]))
+            rng.shuffle(ts)
+            return ts
+        L = b.push(["sum", side()])
+        R = b.push(["sum", side()])
+        b.hot = [L, R]
+        made = []
+        x, y = rng.choice([(L, R), (R, L)])
+        d = b.push(["sub", x, y])
+        lo, hi, _, _ = linear_range(b.binds, d, names)
+        up = rng.random() < 0.5               # all constraints of a case pull the same way: jointly satisfiable
+        for _ in range(rng.choice([2, 3, 4])):
+            # x - y >= k (k just below the maximum) or x - y <= k (just above the minimum), written as a comparison of
+            # the two long expressions - x OP y + k - or the other way round - y + k OP' x
+            k = (hi - rng.choice([0, 1, 2, 3])) if up else (lo + rng.choice([0, 1, 2, 3]))
+            ki = b.push(["int", k])
+            r = b.push(["add", y, ki])
+            strict = rng.random() < 0.3 and (k < hi if up else k > lo)
+            if rng.random() < 0.5:
+                op = ("GT" if strict else "GE") if up else ("LT" if strict else "LE")
+                q = b.push(rng.choice([["cmp", x, op, r], ["ineq", x, op, r]]))
+            else:
+                op = ("LT" if strict else "LE") if up else ("GT" if strict else "GE")
+                q = b.push(rng.choice([["cmp", r, op, x], ["ineq", r, op, x]]))
+            made.append(q)
+            if rng.random() < 0.5:
+                b.push(["obs", q])
+        rng.shuffle(made)
+        for q in made:
+            b.push(["post", q, rng.random() < 0.3])
+            if rng.random() < 0.3:
+                b.push(["clause", gen_lrefs(rng, b, names, 3)])
+    else:
+        n = rng.choice([8, 12, 16, 22, 30, 40])
+        for _ in range(rng.choice([2, 3])):
+            b.leaf()
+        tries = 0
+        while len(b.binds) < nv + n and tries < 30 * n:
+            tries += 1
+            r = rng.random()
+            if r < 0.55:
+                i = b.step()
+                if i is not None and b.kinds[i] == "expr" and len(b.hot) < 4 and rng.random() < 0.5:
+                    b.hot.append(i)
+            elif r < 0.75:
+                interesting_ineq()
+            else:
+                a_post()
+        # the inequalities built EARLY are posted now, after everything derived from their operands
+        qs = b.pool("ineq")
+        rng.shuffle(qs)
+        for q in qs[:rng.choice([0, 1, 2, 3])]:
+            b.push(["post", q, rng.random() < 0.4])
+    steps = b.binds
+    exprs = [i for i, k in enumerate(b.kinds) if k == "expr" and i not in b.dead]
+    hist = [gen_ineq(rng, NAMES[:max(2, min(nv, 10))]) for _ in range(rng.choice([0, 0, 1, 2, 4]))]
+    return {"kind": "dagbig" if big else "dag", "history": hist, "ops": steps,
+            "evals": rng.sample(exprs, min(len(exprs), 3)), "pyseed": rng.randrange(1 << 30)}
+
+
+def dag_lits(env, lrefs):
+    from tools.rect.pseudobool import Literal
+    return [env[l[1]] if l[0] == "ref" else Literal(l[1], l[2]) for l in lrefs]
+
+
+def dag_assignments(case, users):
+    """Assignments of the user variables on which extendability is checked."""
+    if len(users) <= MAXENUM:
+        return list(itertools.product([False, True], repeat=len(users)))
+    import random
+    steps = case["ops"]
+    r = random.Random(case["pyseed"])
+    kinds = pbdag.kinds_of(steps)
+    out = []
+    for s in steps:
+        if s[0] != "post":
+            continue
+        q = steps[s[1]]
+        # q = cmp / ineq (l OP r): extremes of l - r
+        zero = dict.fromkeys(users, False)
+        m0 = pbdag.direct(steps, zero)
+        f0 = m0[q[1]] - m0[q[3]]
+        best, worst = dict(zero), dict(zero)
+        for v in users:
+            m = pbdag.direct(steps, dict(zero, **{v: True}))
+            d = (m[q[1]] - m[q[3]]) - f0
+            if d > 0:
+                best[v] = True
+            elif d < 0:
+                worst[v] = True
+        for base in (best, worst):
+            out.append(tuple(base[v] for v in users))
+            for _ in range(40):
+                a = dict(base)
+                for v in r.sample(users, r.choice([1, 1, 2, 2, 3, 4])):
+                    a[v] = not a[v]
+                out.append(tuple(a[v] for v in users))
+    for _ in range(60):
+        p = r.choice([0.1, 0.3, 0.5, 0.7, 0.9])
+        out.append(tuple(r.random() < p for _ in users))
+    return out
+
+
+def run_dag(case):
+    import random
+    from tools.rect import pseudobool as pb
+    from tools.rect.pseudobool import Literal
+    from tools.rect.satmanager import SATManager
+    del pb.memory[2:]
+    pb.memory[0:2] = [0, 1]
+    pb.mmap.clear()
+    hm = SATManager()
+    for v in NAMES:
+        hm.newvar(v)
+    for h in case.get("history", []):
+        try:
+            do_post(hm, h)
+        except Exception:
+            pass
+    mem0 = mem_nodes(pb.memory[2:])
+    sm = SATManager()
+    rng = random.Random(case["pyseed"])
+    env, kinds, status, unchanged, last = [], [], [], [], []
+    for s in case["ops"]:
+        kd = pbdag.kind_of(s, kinds)
+        if kd is None:
+            raise ValueError(f"ill-typed step {s}")
+        k = s[0]
+        if k in ("newvar", "clause", "imply", "amoq", "amoh", "post"):
+            before = mgr_state(sm)
+            st, obj = "A", None
+            try:
+                if k == "newvar":
+                    assert s[1].startswith(PRE)
+                    suf, r = s[1][len(PRE):], rng.random()
+                    if r < 0.5:
+                        obj = sm.newvar(s[1], "")
+                    elif suf.isdigit() and str(int(suf)) == suf:
+                        obj = sm.newvar(int(suf))            # newvar(name: int | float | str)
+                    elif suf == "2.5":
+                        obj = sm.newvar(2.5)
+                    else:
+                        obj = sm.newvar(suf)
+                elif k == "clause":
+                    sm.add_clause(dag_lits(env, s[1]))
+                elif k == "imply":
+                    sm.imply(dag_lits(env, s[1]), dag_lits(env, [s[2]])[0])
+                elif k == "amoq":
+                    sm.quadraticencoding(dag_lits(env, s[1]))
+                elif k == "amoh":
+                    sm.heuleencoding(dag_lits(env, s[2]), s[1])
+                else:
+                    sm.pseudoboolencoding(env[s[1]], s[2])
+            except Exception as e:
+                if is_refusal(e):
+                    st = "R"
+                else:
+                    raise
+            status.append(st)
+            last.append([l.v for l in sm.clauses[-1]] if len(sm.clauses) > before["nclauses"] else None)
+            if st == "R":
+                unchanged.append(mgr_state(sm) == before)
+            env.append(obj)
+        else:
+            env.append(pbdag.exec_bind(env, kinds, s, rng, store=False))
+        kinds.append(kd)
+    obs = {"mem0": mem0, "newmem": mem_nodes(pb.memory[2 + len(mem0):]), "status": status, "refused_unchanged": unchanged,
+           "kinds": kinds}
+    obs["mmap_ok"] = len(pb.mmap) == len(pb.memory) - 2 and all(pb.mmap.get(n) == i + 2 for i, n in enumerate(pb.memory[2:]))
+    obs.update({k: v for k, v in mgr_state(sm).items() if k not in ("ttable", "memlen", "nclauses")})
+    obs["clauses_after"] = last
+    users = sorted({s[1] for s in case["ops"] if s[0] == "newvar"})
+    obs["users"] = users
+    res = sm.solve()
+    obs["solve"] = bool(res)
+    if res:
+        obs["model"] = {v: sm.value(Literal(v)) for v in users}
+        obs["model_neg"] = {v: sm.value(Literal(v, False)) for v in users}
+        obs["evals"] = [sm.evalexpr(env[i]) for i in case.get("evals", [])]
+    tt = sm.ttable
+    extendable = []
+    for bits in dag_assignments(case, users):
+        assum = [tt[v] if b else -tt[v] for v, b in zip(users, bits)]
+        extendable.append([list(bits), bool(sm.solver.solve(assumptions=assum))])
+    obs["extendable"] = extendable
+    # every object, read at the very end (after the posts, the solve and the evaluations)
+    obs["snaps"] = [pbdag.snapshot(x, k) for x, k in zip(env, kinds)]
+    return obs
+
+
+def glref(l):
+    return f"(LRef {gnat(l[1])})" if l[0] == "ref" else f"(LNew {gstr(l[1])} {gbool(l[2])})"
+
+
+def gstep(s):
+    k = s[0]
+    if k == "newvar":
+        return f"(HNewVar {gstr(s[1])})"
+    if k == "clause":
+        return f"(HClause {glist([glref(l) for l in s[1]])})"
+    if k == "imply":
+        return f"(HImply {glist([glref(l) for l in s[1]])} {glref(s[2])})"
+    if k == "amoq":
+        return f"(HAmoQ {glist([glref(l) for l in s[1]])})"
+    if k == "amoh":
+        return f"(HAmoH {gz(s[1])} {glist([glref(l) for l in s[2]])})"
+    if k == "post":
+        return f"(HIneq {gnat(s[1])} {gbool(s[2])})"
+    return f"(HBind {pbdag.gbind(s)})"
+
+
+def dag_to_coq(case, obs):
+    steps = case["ops"]
+    mem0 = glist([gnode(n) for n in obs["mem0"]])
+    o = (f"(mkObs {glist([gnode(n) for n in obs['newmem']])} "
+         f"{glist([glist([glit(l) for l in c]) for c in obs['clauses']])} {gnat(obs['aux'])} "
+         f"{glist([gnat(i) for i in obs['codified']])} {glist([gvar(v) for v in obs['vtable']])} "
+         f"{glist(['Accepted' if s == 'A' else 'Refused' for s in obs['status']])})")
+    vals = pbdag.gobs(obs["snaps"], obs["kinds"], skip=pbdag.consumed(steps))
+    chk = f"c07_dag_check {mem0} {glist([gstep(s) for s in steps])} {vals} {o} {gsem(obs, obs['users'])}"
+    for c in pbdag.zero_consts(obs["snaps"], obs["kinds"]):
+        if c != 0:
+            chk += f" && Z.eqb {gz(c)} 0%Z"
+    return chk
+
+
+def dag_describe(steps, i):
+    s = steps[i]
+    if s[0] == "post":
+        q = steps[s[1]]
+        return (f"step {i}: post x{s[1]} = {q[0]}(x{q[1]} {OPSTR[q[2]]} x{q[3]})"
+                f" ({'coefficient decomposition' if s[2] else 'standard construction'})")
+    return f"step {i}: {s}"
+
+
+def dag_oracle(case, obs):
+    steps = case["ops"]
+    if not all(obs["refused_unchanged"]):
+        return "refused: a refused constraint changed the manager or the diagram store"
+    if not obs["mmap_ok"]:
+        return "store: mmap and memory disagree (a node is stored twice or under another index)"
+    users = obs["users"]
+    posts = [i for i, s in enumerate(steps) if s[0] in ("newvar", "clause", "imply", "amoq", "amoh", "post")]
+    accepted = [i for i, st in zip(posts, obs["status"]) if st == "A" and steps[i][0] != "newvar"]
+
+    def violated(a):
+        m = pbdag.direct(steps, a)
+
+        def lv(l):
+            return bool(m[l[1]]) if l[0] == "ref" else (a[l[1]] == l[2])
+        for i in accepted:
+            s = steps[i]
+            k = s[0]
+            if k == "clause":
+                ok = any(lv(l) for l in s[1])
+            elif k == "imply":
+                ok = (not all(lv(l) for l in s[1])) or lv(s[2])
+            elif k == "amoq":
+                ok = sum(1 for l in s[1] if lv(l)) <= 1
+            elif k == "amoh":
+                ok = sum(1 for l in s[2] if lv(l)) <= 1
+            else:
+                ok = bool(m[s[1]])
+            if not ok:
+                return i, m
+        return None, m
+
+    def show(a):
+        return a if len(a) <= 10 else "{" + ", ".join(v for v, x in a.items() if x) + " true, rest false}"
+    anysat = False
+    for bits, extd in obs["extendable"]:
+        a = dict(zip(users, bits))
+        bad, _ = violated(a)
+        if bad is None:
+            anysat = True
+        if extd and bad is not None:
+            return (f"extend: assignment {show(a)} extends to a model of the generated CNF but violates the accepted "
+                    f"constraint [{dag_describe(steps, bad)}]")
+        if not extd and bad is None:
+            return (f"extend: assignment {show(a)} satisfies every accepted constraint but does not extend to a model "
+                    f"of the generated CNF")
+    full = len(users) <= MAXENUM
+    if (full and obs["solve"] != anysat) or (anysat and not obs["solve"]):
+        return f"solve: solve() returned {obs['solve']} but a satisfying user assignment " \
+               f"{'exists' if anysat else 'does not exist'}"
+    if obs["solve"]:
+        mod = obs["model"]
+        if any(mod[v] not in (0, 1) for v in users):
+            return f"value: value() returned {mod} after a successful solve()"
+        if any(obs["model_neg"][v] != 1 - mod[v] for v in users):
+            return "value: value(-x) is not 1 - value(x)"
+        a = {v: bool(mod[v]) for v in users}
+        bad, m = violated(a)
+        if bad is not None:
+            return f"solve: the model exposed by value() {show(a)} violates the accepted constraint [{dag_describe(steps, bad)}]"
+        for i, got in zip(case.get("evals", []), obs["evals"]):
+            if got != m[i]:
+                return f"evalexpr: evalexpr gives {got} for the expression object x{i} under the model {show(a)}, direct value {m[i]}"
+    return None
+
+
+def shrink_dag(case):
+    if case.get("history"):
+        yield dict(case, history=[])
+    if case.get("evals"):
+        yield dict(case, evals=[])
+    for steps in pbdag.shrink_steps(case["ops"], pbdag.refs, pbdag.remap, simpler=dag_simpler):
+        if None in pbdag.kinds_of(steps):
+            continue
+        # newvar steps are never dropped while their name is used by a built-on-the-spot literal
+        reg = {s[1] for s in steps if s[0] == "newvar"}
+        if not all(nm in reg for nm in dag_names_used(steps)):
+            continue
+        yield dict(case, ops=steps, evals=[], kind="dag" if len(reg) <= MAXENUM else case["kind"])
+
+
+def dag_names_used(steps):
+    out = set()
+    for s in steps:
+        if s[0] in ("lit", "str"):
+            out.add(s[1])
+        for l in (s[1] if s[0] in ("clause", "amoq", "imply") else s[2] if s[0] == "amoh" else []):
+            if l[0] == "new":
+                out.add(l[1])
+        if s[0] == "imply" and s[2][0] == "new":
+            out.add(s[2][1])
+    return out
+
+
+def dag_simpler(s):
+    yield from pbdag.simpler_bind(s)
+    k = s[0]
+    if k in ("clause", "amoq"):
+        for i in range(len(s[1])):
+            yield [k, s[1][:i] + s[1][i + 1:]]
+    if k == "amoh":
+        for i in range(len(s[2])):
+            yield [k, s[1], s[2][:i] + s[2][i + 1:]]
+    if k == "imply":
+        for i in range(len(s[1])):
+            yield [k, s[1][:i] + s[1][i + 1:], s[2]]
+    if k == "post" and s[2]:
+        yield ["post", s[1], False]
 
 # --------------------------------------------------------------------------
 # direct oracle: the property as stated, on the implementation's own output
@@ -344,6 +914,8 @@ def describe(p):
 
 
 def oracle(case, obs):
+    if is_dag(case):
+        return dag_oracle(case, obs)
     posts = case["posts"]
     if not all(obs["refused_unchanged"]):
         return "refused: a refused constraint changed the manager or the diagram store"
@@ -432,6 +1004,9 @@ def shrink_post(p):
 
 
 def shrink(case):
+    if is_dag(case):
+        yield from shrink_dag(case)
+        return
     posts, hist = case["posts"], case.get("history", [])
     if hist:
         yield dict(case, history=[])
@@ -460,6 +1035,22 @@ def shrink(case):
 
 # --------------------------------------------------------------------------
 def nontrivial(case):
+    if is_dag(case):
+        # an inequality is posted after another object was derived from one of the objects it was built from
+        steps = case["ops"]
+        for i, s in enumerate(steps):
+            if s[0] == "post":
+                anc, todo = set(), [s[1]]
+                while todo:
+                    j = todo.pop()
+                    if j not in anc:
+                        anc.add(j)
+                        todo.extend(pbdag.refs(steps[j]))
+                q = s[1]
+                if any(k > q and steps[k][0] not in ("post", "obs") and anc & set(pbdag.refs(steps[k]))
+                       for k in range(q + 1, i)):
+                    return True
+        return False
     return any(p["k"] == "ineq" and len(p["lt"]) >= 2 for p in case["posts"]) or \
         any(p["k"] == "amoh" and len(p["lits"]) > max(p["kk"], 3) for p in case["posts"])
 
@@ -470,19 +1061,38 @@ def dist_key(case):
 
 
 def run(ctx, out, replay=None):
-    n = 5000 if ctx.quick() else 40000
+    n = 5000 if ctx.quick() else 32000
     out.rule = ("random posting sequences (1-6 posts: clauses, implications, at-most-one groups of 0..12 literals "
                 "pairwise and chained with k 3..6 (and refused k), inequalities with up to 8+2 literals, coefficients "
                 "-9..9 incl. 0, repeated variables, both polarities, six operator spellings, both constructions) over "
                 "2..10 user variables, posted to a fresh manager after 0-6 earlier encodings by another manager of the "
-                "same process; every user assignment is checked for extendability with PySAT; non-trivial = an "
-                "inequality with >= 2 literals or a chained group longer than k; distinct by hash")
+                "same process; a fifth of the sequences also post an inequality and later one of its cofactors (whose "
+                "diagram is an inner node of the first one's); every user assignment is checked for extendability with "
+                "PySAT; non-trivial = an "
+                "inequality with >= 2 literals or a chained group longer than k; distinct by hash. "
+                "Every third case is a HISTORY over shared objects (PB/DagPost.v): the variables are registered with "
+                "newvar (the returned Literal objects are kept), then 8..40 steps interleave bindings of the expression "
+                "algebra (each object built from earlier ones, hot objects reused as left and right operands), "
+                "inequalities whose bound lies inside the range of their expression, read-only uses, and posts of "
+                "clauses / implications / at-most-one groups over the kept Literal objects and of Ineq objects built "
+                "EARLIER (posted after other objects were derived from their operands; the same object may be posted "
+                "twice); all objects are compared at the end; one case in 400 does this over 33..64 variables with two "
+                "long sums compared with each other (subtrahend > 32 terms, shared variables of both polarities); "
+                "non-trivial history = an inequality posted after something else was derived from one of its ancestors. "
+                "One case in 200 is WIDE: 15..65 variables (around 16 / 32 / 64), one to three long clauses, at-most-one "
+                "groups (k up to 32) or unit-coefficient inequalities bounded near an extreme, checked on the "
+                "assignments around the boundary of each constraint.  Variable names also come from pools of names that "
+                "are prefixes of each other (x, x1, x10, x_1), look like the internal ones (aux, robdd_x, def_), are "
+                "digits (registered through newvar(int) / newvar(float)) or non-ASCII")
     cases = []
     if replay and "case" in replay:
         cases.append(fr.unjson(replay["case"]))
     cases += fr.load_corpus("C07")
     while len(cases) < n:
-        cases.append(gen_case(ctx.rng))
+        k = len(cases) % 400
+        cases.append(gen_dag_case(ctx.rng, big=True) if k == 11 else
+                     gen_wide_case(ctx.rng) if k % 200 == 13 else
+                     gen_dag_case(ctx.rng) if k % 3 == 0 else gen_case(ctx.rng))
     stats = {"refused_posts": 0, "cases_building_nodes": 0, "cases_reusing_earlier_nodes": 0, "unsat_instances": 0,
              "max_initial_memory": 0, "max_new_nodes": 0, "nodes_codified": 0,
              "ineq_via_diagram": 0, "ineq_as_clause_or_tautology": 0}
@@ -496,7 +1106,15 @@ def run(ctx, out, replay=None):
         stats["max_initial_memory"] = max(stats["max_initial_memory"], len(obs["mem0"]))
         stats["max_new_nodes"] = max(stats["max_new_nodes"], len(obs["newmem"]))
         stats["nodes_codified"] += len(obs["codified"])
-        for p, st, c in zip(case["posts"], obs["status"], obs["clauses_after"]):
+        if is_dag(case):
+            posted = [{"k": "ineq"} if s[0] == "post" else {"k": s[0]} for s in case["ops"]
+                      if s[0] in ("newvar", "clause", "imply", "amoq", "amoh", "post")]
+            stats["dag_cases"] = stats.get("dag_cases", 0) + 1
+            stats["dag_posted_inequalities"] = stats.get("dag_posted_inequalities", 0) + \
+                sum(1 for p in posted if p["k"] == "ineq")
+        else:
+            posted = case["posts"]
+        for p, st, c in zip(posted, obs["status"], obs["clauses_after"]):
             if p["k"] == "ineq" and st == "A":
                 stats["ineq_via_diagram" if c and len(c) == 1 and c[0].startswith("robdd_") else "ineq_as_clause_or_tautology"] += 1
         return obs
@@ -505,6 +1123,11 @@ def run(ctx, out, replay=None):
     out.extra["c07_stats"] = stats
     kinds = {}
     for c in cases:
+        if is_dag(c):
+            for st in c["ops"]:
+                kk = "dag:" + st[0] + ("/dec" if st[0] == "post" and st[2] else "")
+                kinds[kk] = kinds.get(kk, 0) + 1
+            continue
         for p in c["posts"]:
             kk = p["k"] + ("/dec" if p.get("decomp") else "") + ("/" + p["op"] if p["k"] == "ineq" else "")
             kinds[kk] = kinds.get(kk, 0) + 1
